@@ -22,13 +22,32 @@ let split_on (sep: string) (l: string list) : string list list =
     | [] -> List.rev (List.rev cur :: acc)
     | x :: r -> if x = sep then go [] (List.rev cur :: acc) r else go (x :: cur) acc r in
   go [] [] l
+(* ids of timers whose foreign add is between its two micro-steps (FN done, FQ not yet): the id is not
+   known to anybody else before addTimer returns *)
+let inflight_ids : (int, int * int) Hashtbl.t = Hashtbl.create 16
+(* adds inside the body of a user functor (Q { ... }) execute later, when doPendingFunctors runs the
+   functor: their sequence numbers are learnt from the EAdd events of that step (matched by address) *)
+let qadds : (int * int) list ref = ref []      (* (addr, tag), oldest first *)
+let learn_adds (evs: event list) : unit =
+  List.iter (fun e -> match e with
+    | EAdd (s, a, _, _) ->
+        let a = iz a in
+        let rec go acc = function
+          | [] -> ()
+          | (a', tag) :: r when a' = a -> Hashtbl.replace ids tag (a, iz s); qadds := List.rev_append acc r
+          | x :: r -> go (x :: acc) r in
+        go [] !qadds
+    | _ -> ()) evs
 (* resolve one cbop; [seqc] = the sequence counter the model will have when the op executes
-   (adds that are statically acceptable consume one number) *)
-let resolve (seqc: int ref) (w: string list) : cbop =
+   (adds that are statically acceptable consume one number); [deferred] = inside a Q body *)
+let rec resolve ?(deferred=false) (seqc: int ref) (w: string list) : cbop =
   let id_of tag = try Hashtbl.find ids tag with Not_found -> (0, 0) in
   let add tag wh iv =
     let a = try Hashtbl.find addr_tab tag with Not_found -> 0 in
-    if wh > 0 && a > 0 then begin incr seqc; Hashtbl.replace ids tag (a, !seqc) end;
+    if wh > 0 && a > 0 then begin
+      if deferred then qadds := !qadds @ [(a, tag)]
+      else begin incr seqc; Hashtbl.replace ids tag (a, !seqc) end
+    end;
     (zi wh, zi iv, zi a) in
   match w with
   | ["T"; d] -> CTick (zi (int_of_string d))
@@ -36,6 +55,19 @@ let resolve (seqc: int ref) (w: string list) : cbop =
   | ["FA"; tag; wh; iv] -> let (x, y, z) = add (int_of_string tag) (int_of_string wh) (int_of_string iv) in CFAdd (x, y, z)
   | ["C"; tag] -> let (a, s) = id_of (int_of_string tag) in CCancel (zi a, zi s)
   | ["FC"; tag] -> let (a, s) = id_of (int_of_string tag) in CFCancel (zi a, zi s)
+  | ["FN"; tag; wh; iv] when not deferred ->
+      let tag = int_of_string tag and wh = int_of_string wh in
+      let a = try Hashtbl.find addr_tab tag with Not_found -> 0 in
+      if wh > 0 && a > 0 then begin incr seqc; Hashtbl.replace inflight_ids tag (a, !seqc) end;
+      CFNew (zi wh, zi (int_of_string iv), zi a)
+  | ["FQ"; tag] when not deferred ->
+      let tag = int_of_string tag in
+      (match (try Some (Hashtbl.find inflight_ids tag) with Not_found -> None) with
+       | Some (a, s) -> Hashtbl.remove inflight_ids tag; Hashtbl.replace ids tag (a, s); CFEnq (zi a)
+       | None -> CFEnq (zi 0))
+  | "Q" :: "{" :: rest when not deferred ->
+      let body = (match List.rev rest with "}" :: r -> List.rev r | _ -> failwith "bad Q") in
+      CQueue (List.map (resolve ~deferred:true seqc) (List.filter (fun x -> x <> []) (split_on "|" body)))
   | _ -> failwith ("bad op: " ^ String.concat " " w)
 let rec take n l = if n <= 0 then [] else match l with [] -> [] | x :: r -> x :: take (n-1) r
 let () =
@@ -47,7 +79,7 @@ let () =
     | [] -> ()
     | "case" :: id :: clk0 :: _ ->
         st := init (zi (int_of_string clk0)); dead := false;
-        Hashtbl.reset addr_tab; Hashtbl.reset ids;
+        Hashtbl.reset addr_tab; Hashtbl.reset ids; Hashtbl.reset inflight_ids; qadds := [];
         Printf.printf "case %s\n" id; flush stdout
     | ["addr"; tag; a] -> Hashtbl.replace addr_tab (int_of_string tag) (int_of_string a)
     | ["end"] ->
@@ -70,7 +102,7 @@ let () =
             | ["P"] -> RunPending
             | _ -> Cb (resolve seqc w) in
           (match step !st o with
-           | Ok (st', evs) -> st := st'; Printf.printf "ok %s | %s\n" (show_events evs) (show_state st')
+           | Ok (st', evs) -> st := st'; (match o with RunPending -> learn_adds evs | _ -> ()); Printf.printf "ok %s | %s\n" (show_events evs) (show_state st')
            | Rejected -> Printf.printf "rejected - | %s\n" (show_state !st)
            | Fault -> dead := true; print_string "FAULT\n")
         end;
